@@ -166,8 +166,10 @@ func c17Body(c *c17Case) *sm.Fail {
 	}
 
 	all := map[string]bool{}
+	storedVals := map[string]bool{}
 	for id := range valOf {
 		all[id] = true
+		storedVals[cs.Show(valOf[id])] = true
 	}
 	for _, rev := range []bool{false, true} {
 		var got []string
@@ -216,22 +218,40 @@ func c17Body(c *c17Case) *sm.Fail {
 		}
 		if i > 0 {
 			r2 := c.Ranges[i-1]
-			in := r.clover().Intersect(r2.clover())
-			probe := []interface{}{}
-			for _, v := range c.Values {
-				probe = append(probe, v.X)
-			}
-			for _, rr := range c.Ranges {
-				probe = append(probe, rr.Start.X, rr.End.X)
-			}
-			for _, v := range probe {
-				if inRange(v, r.Start.X, r.End.X, r.StartInc, r.EndInc) && inRange(v, r2.Start.X, r2.End.X, r2.StartInc, r2.EndInc) {
-					if !inRange(v, run.Canon(in.Start), run.Canon(in.End), in.StartIncluded, in.EndIncluded) {
-						return bad("intersect", "%s lies in %s and in %s but not in their intersection %s", cs.Show(v), r, r2,
-							c17Range{Start: cs.V{X: run.Canon(in.Start)}, End: cs.V{X: run.Canon(in.End)}, StartInc: in.StartIncluded, EndInc: in.EndIncluded})
-					}
-					if in.IsEmpty() {
-						return bad("isempty", "intersection of %s and %s is reported empty but contains %s", r, r2, cs.Show(v))
+			for dir := 0; dir < 2; dir++ {
+				in := r.clover().Intersect(r2.clover())
+				if dir == 1 {
+					in = r2.clover().Intersect(r.clover())
+				}
+				probe := []interface{}{}
+				for _, v := range c.Values {
+					probe = append(probe, v.X)
+				}
+				for _, rr := range c.Ranges {
+					probe = append(probe, rr.Start.X, rr.End.X)
+				}
+				for _, v := range probe {
+					if inRange(v, r.Start.X, r.End.X, r.StartInc, r.EndInc) && inRange(v, r2.Start.X, r2.End.X, r2.StartInc, r2.EndInc) {
+						if !inRange(v, run.Canon(in.Start), run.Canon(in.End), in.StartIncluded, in.EndIncluded) {
+							return bad("intersect", "%s lies in %s and in %s but not in their intersection %s", cs.Show(v), r, r2,
+								c17Range{Start: cs.V{X: run.Canon(in.Start)}, End: cs.V{X: run.Canon(in.End)}, StartInc: in.StartIncluded, EndInc: in.EndIncluded})
+						}
+						if in.IsEmpty() {
+							return bad("isempty", "intersection of %s and %s is reported empty but contains %s", r, r2, cs.Show(v))
+						}
+						// and the scan over the intersection must deliver every stored entry holding v
+						if _, stored := storedVals[cs.Show(v)]; stored {
+							found := false
+							idx.IterateRange(in, false, func(id string) error {
+								if model.Cmp(valOf[id], v) == 0 {
+									found = true
+								}
+								return nil
+							})
+							if !found {
+								return bad("intersect", "stored value %s lies in %s and in %s but a scan of their intersection does not deliver it", cs.Show(v), r, r2)
+							}
+						}
 					}
 				}
 			}
